@@ -87,6 +87,12 @@ CHECKS["C20"] = ("case analysis of make_space / add_box with abscissae as linear
     "the centred unit-spaced cod wires with margin >= 1, verticality of dom / output nodes, strictly decreasing heights, consistent node keys at all 25 construction sites, that both back-ends override every primitive, and the "
     "diagramize / nx2diagram agreement (offset normalisation, whiskering, splice). The rendered output of matplotlib / TikZ, inner wires of bubbles and non-planar uses of diagramize are not decided.",
     TB, "DESIGN.md §4 C20")
+CHECKS["C17"] = ("writer/reader convention agreement (phases, vertex types, Hadamard edges, scalars), slice-partition typing of the (vertex, flag) row of to_pyzx, positional effect analysis of from_pyzx.move on symbolic rows "
+    "(the recorded row against the permutation realised by the swaps), statement-shape comparison of the gathering / vertex / output loops, dominating refusal guards",
+    "Decides that export doubles and import halves phases, the colour and Hadamard-edge conventions on all four sites, the splice of the row of to_pyzx for spiders / swaps / H, inputs and outputs in wire order, the refusals, "
+    "that `move` records exactly the permutation its swaps realise with the moved wire keeping its label, that inputs are sorted and gathered right of the first, the legs / whiskers / Hadamards of each imported vertex and that outputs are "
+    "routed from a leg not yet placed. pyzx's own tensor semantics, graphs with parallel edges and the scalar on import are not decided; pyzx is never imported.",
+    TB, "DESIGN.md §4 C17")
 NOT_YET = "check not built yet in this round (static rules designed in DESIGN.md §4; will be claimed when the rule module lands)"
 NOT_APPLICABLE = {("C%02d" % i): NOT_YET for i in range(1, 21) if ("C%02d" % i) not in CHECKS}
 NOTES = ("All checks are static analyses of /repo/discopy's source (python -m sa.check <id>); exit 0 / 1 (VIOLATION) / 2 (ANALYSIS-ERROR). "
